@@ -850,6 +850,17 @@ public:
         m_problemListener = theProblemListener;
     }
 
+#if defined(APACHE_XALAN_C_VERIF)
+#define XALAN_VERIF_HAS_RESIDUE 1
+    /**
+     * Verification hook H1: appends the logical sizes of the execution
+     * context's stacks, caches and counters (the "residue" vector).
+     * After construction and after every call it must be the same vector.
+     */
+    void
+    verifResidue(XalanVector<unsigned long>&    theResidue) const;
+#endif
+
     /**
      * Returns the last error that occurred as a 
      * result of calling transform. 
